@@ -73,7 +73,7 @@ fn worker(
     timeout: Duration,
 ) -> impl FnOnce() {
     move || {
-        counter.fetch_add(1, Ordering::AcqRel);
+        // The slot was reserved by `dispatch` before this thread was spawned.
         let _guard = CounterGuard(counter);
         while let Ok(f) = receiver.recv_timeout(timeout) {
             f.run()
@@ -116,7 +116,15 @@ impl AsyncifyPool {
                 TrySendError::Full(f) => {
                     if self.thread_limit == 0 {
                         panic!("the thread pool is needed but no worker thread is running");
-                    } else if self.counter.load(Ordering::Acquire) >= self.thread_limit {
+                    } else if self
+                        .counter
+                        .fetch_update(Ordering::AcqRel, Ordering::Acquire, |n| {
+                            // Reserve the worker's slot here: if the worker counted itself only
+                            // once it runs, concurrent dispatchers could all pass the check.
+                            (n < self.thread_limit).then_some(n + 1)
+                        })
+                        .is_err()
+                    {
                         // SAFETY: we can ensure the type
                         Err(DispatchError(*unsafe {
                             Box::from_raw(Box::into_raw(f).cast())
